@@ -338,3 +338,59 @@ def trace_summary(res, limit=60):
     return {"steps": s.steps, "context_switches": s.context_switches, "timeouts_fired": s.timeouts_fired,
             "max_queue_depth": s.max_queue_depth, "decisions": s.decisions[:2000],
             "last_steps": [list(t) for t in s.trace[-limit:]], "threads": s.describe_threads()}
+
+
+CHILD_SCRIPT = r"""
+import sys, time, json
+import auditok
+import auditok.workers as W
+from auditok.util import AudioReader
+
+conf = json.load(open(sys.argv[1]))
+data = open(conf["data"], "rb").read()
+
+
+class Slow(AudioReader):
+    def read(self):
+        time.sleep(0.003)  # the stream outlives the main thread by far
+        return AudioReader.read(self)
+
+
+reader = Slow(data, block_dur=conf["w"], sampling_rate=conf["rate"], sample_width=conf["width"], channels=conf["channels"])
+saver = W.StreamSaverWorker(reader, filename=conf["stream"], cache_size_sec=conf["cache"])
+observers = [W.PrintWorker("{id} {start} {end}", "%S"),
+             W.RegionSaverWorker(conf["regions"] + "/det_{id}.wav"),
+             W.AudioEventsJoinerWorker(conf["silence"], conf["joined"], None, conf["rate"], conf["width"], conf["channels"])]
+tw = W.TokenizerWorker(saver, observers, **conf["kw"])
+saver.start()
+tw.start_all()
+# the main thread simply returns: the interpreter waits for the worker threads, as it does for any thread a program started
+"""
+
+
+def run_main_returns_child(case, data, tmpdir):
+    """a program that builds the pipeline, calls start_all() and lets its main thread RETURN: "every worker thread terminates by
+    itself" and "each observer processes every detection" hold for it too (the workers are ordinary threads the interpreter
+    waits for).  -> dict(rc, stdout, stderr, stream, joined, regions_dir)"""
+    import json
+    import subprocess
+
+    os.makedirs(os.path.join(tmpdir, "child-regions"), exist_ok=True)
+    paths = dict(data=os.path.join(tmpdir, "child-in.raw"), stream=os.path.join(tmpdir, "child-stream.wav"),
+                 joined=os.path.join(tmpdir, "child-joined.wav"), regions=os.path.join(tmpdir, "child-regions"))
+    with open(paths["data"], "wb") as fp:
+        fp.write(data)
+    kw = {k: (bool(v) if k in ("drop_trailing_silence", "strict_min_dur") else v) for k, v in AC.split_kwargs(case).items() if k not in ("analysis_window", "aw")}
+    conf = dict(paths, w=case["w"], rate=case["rate"], width=case["width"], channels=case["channels"], cache=0.01, silence=case["silence"], kw=kw)
+    cpath = os.path.join(tmpdir, "child-conf.json")
+    with open(cpath, "w") as fp:
+        json.dump(conf, fp)
+    spath = os.path.join(tmpdir, "child.py")
+    with open(spath, "w") as fp:
+        fp.write(CHILD_SCRIPT)
+    env = dict(os.environ, PYTHONPATH=os.environ.get("VERIF_REPO", "/repo"), PYTHONDONTWRITEBYTECODE="1")
+    try:
+        r = subprocess.run([sys.executable, spath, cpath], capture_output=True, text=True, timeout=120, env=env)
+    except subprocess.TimeoutExpired:
+        return {"inconclusive": "child exceeded 120 s"}
+    return dict(rc=r.returncode, stdout=r.stdout, stderr=r.stderr, **paths)
